@@ -232,6 +232,46 @@ def nasty_proto(r, name):
     return "\n".join(lines) + "\n"
 
 
+def nesting_doc(r, tier):
+    """every container nesting to depth 2 (quick: plus a sample of depth 3; thorough: all of depth 3) over the leaves double / i64 /
+    string / struct / enum, each as list element, set element, map key and map value"""
+    # (type text, usable as a hash key).  Rust's hash containers are not themselves hashable, so a set / map inside a set element or
+    # map key needs the `pilota.rust_type = "btree"` annotation (golden btree.thrift); without it the document is outside G_thrift.
+    leaves = [(t, True) for t in ["double", "i64", "string", "Leaf", "Kind"]]
+    levels = [leaves]
+    for d in range(3):
+        prev = [t for lv in levels for t in lv]
+        keys = [t for t in prev if t[1]]
+        cur = []
+        for i, (t, h) in enumerate(levels[-1]):
+            other, oh = prev[(i * 7 + d) % len(prev)]
+            key = keys[(i * 5 + d) % len(keys)][0]
+            cur.append((f"list<{t}>", h))
+            cur.append((f"map<{key}, {t}>", False))
+            if h:
+                cur.append((f"set<{t}>", False))
+                cur.append((f"map<{t}, {other}>", False))
+        levels.append(cur)
+    levels = [[t for t, _ in lv] for lv in levels]
+    types = levels[1] + levels[2] + (levels[3] if tier == "thorough" else r.sample(levels[3], min(60, len(levels[3]))))
+    out = ["enum Kind { A = 0, B = 1 }", "struct Leaf { 1: i32 a, 2: string b }"]
+    for k in range(0, len(types), 40):
+        chunk = types[k:k + 40]
+        out.append(f"struct Nest{k // 40} {{")
+        for i, t in enumerate(chunk):
+            out.append(f"  {i + 1}: {r.choice(['optional', 'required', ''])} {t} f{i},")
+        out.append("}")
+        if k == 0:
+            out.append("union NestU {")
+            for i, t in enumerate(chunk[:12]):
+                out.append(f"  {i + 1}: {t} v{i},")
+            out.append("}")
+    out.append("typedef list<list<set<i32>>> Grid")
+    out.append("typedef map<list<double>, set<list<double>>> Vecs")
+    out.append("service NestSvc { Grid f(1: Vecs v, 2: Nest0 n) }")
+    return "\n".join(out) + "\n"
+
+
 def write_docs(workdir, seed, tier):
     src = os.path.join(workdir, "src")
     shutil.rmtree(src, ignore_errors=True)
@@ -241,6 +281,9 @@ def write_docs(workdir, seed, tier):
         open(os.path.join(src, k + ".thrift"), "w").write(text)
         docs.append((k, os.path.join(src, k + ".thrift"), text, "thrift"))
     r = random.Random(seed * 101 + 14)
+    text = nesting_doc(r, tier)
+    open(os.path.join(src, "nesting.thrift"), "w").write(text)
+    docs.append(("nesting", os.path.join(src, "nesting.thrift"), text, "thrift"))
     for i in range(3 if tier == "quick" else 16):
         d = nasty_doc(r, f"n{i}")
         text = idlgen.render(d)
@@ -288,12 +331,19 @@ def step(cfg, tier, seed, workdir, env):
                 continue
             mods.append(mod)
             origin[mod] = (name, cname, idl, text, flags, kind)
-    lib = "#![allow(warnings, clippy::all)]\n" + "\n".join(f'pub mod m_{m} {{ include!("{os.path.join(CHECK_DIR, m, "gen.rs")}"); }}' for m in mods) + "\n"
-    open(os.path.join(CHECK_DIR, "lib.rs"), "w").write(lib)
     e = dict(env, GEN_CHECK_DIR=CHECK_DIR)
-    p = subprocess.run(["cargo", "check", "--offline", "-p", "gencheck", "--message-format=short"], cwd=HARNESS, env=e, stdout=subprocess.PIPE, stderr=subprocess.STDOUT, text=True, timeout=3000)
-    evaluations += 1
-    if p.returncode != 0:
+    live = list(mods)
+    rounds = 0
+    # rustc does not reach its later phases (borrow check, ...) for any module while one module has a type error: modules found
+    # bad are reported and taken out, and what is left is checked again until it is clean
+    while live and rounds < 6:
+        rounds += 1
+        lib = "\n".join(f'pub mod m_{m} {{ include!("{os.path.join(CHECK_DIR, m, "gen.rs")}"); }}' for m in live) + "\n"
+        open(os.path.join(CHECK_DIR, "lib.rs"), "w").write(lib)
+        p = subprocess.run(["cargo", "check", "--offline", "-p", "gencheck", "--message-format=short"], cwd=HARNESS, env=e, stdout=subprocess.PIPE, stderr=subprocess.STDOUT, text=True, timeout=3000)
+        evaluations += 1
+        if p.returncode == 0:
+            break
         bad = {}
         for l in p.stdout.splitlines():
             m = re.search(r"gen/check/([^/]+)/[^:]*:(\d+):\d+: error(\[E\d+\])?: (.*)", l)
@@ -301,11 +351,13 @@ def step(cfg, tier, seed, workdir, env):
                 bad.setdefault(m.group(1), []).append(f"{m.group(3) or ''} {m.group(4)} (line {m.group(2)})")
         if not bad:
             oracle_fails.append(("C14", "cargo check -p gencheck", "C14", "emitted code does not type-check: " + p.stdout[-600:], "error"))
+            break
         for mod, errs in bad.items():
             name, cname, idl, text, flags, kind = origin[mod]
             oracle_fails.append(("C14", f"gentool {kind} {' '.join(flags)} -- {idl}\n{text}", "C14",
                                  f"emitted code for {name} [{cname}] does not type-check: {errs[0]}" + (f" (+{len(errs) - 1} more)" if len(errs) > 1 else ""), "error"))
+        live = [m for m in live if m not in bad]
     for m in mods[:3]:
         samples.append({"document": origin[m][0], "config": origin[m][1], "idl_head": origin[m][3][:200]})
     return dict(evaluations=evaluations, distinct=distinct, samples=samples, oracle_fails=oracle_fails, disagreements=[],
-                extra={"documents": len(docs), "configurations": [c for c, _ in configs], "modules_type_checked": len(mods)})
+                extra={"documents": len(docs), "configurations": [c for c, _ in configs], "modules_type_checked": len(mods), "rustc_rounds": rounds})
